@@ -1,7 +1,8 @@
 import XpmVerif.Model.Specs
 /-! M8 (text): token-level model of the arpeggio grammar of `launcherfinder/parser.py`.
     Tokenisation (whitespace skipping, the regular expressions `\d+(G|M)?`, `\d+`, `h(ours)?|d(ays)?`)
-    is arpeggio's and is exercised by the correspondence check, not modelled. -/
+    is modelled in `Model/SpecsLex.lean` (character level); a bare number is the token `num` wherever it stands
+    (`\d+` and `\d+(G|M)?` overlap), so `mem = 12` is `kwMem, eq, num 12`. -/
 namespace XpmVerif.Specs
 
 inductive Tok where
@@ -13,6 +14,7 @@ inductive Tok where
   deriving Repr, DecidableEq
 
 def renderItem : SpecItem → List Tok
+  | .mem n .none => [.kwMem, .eq, .num n]
   | .mem n s => [.kwMem, .eq, .memlit n s]
   | .cores n => [.kwCores, .eq, .num n]
 
@@ -39,6 +41,7 @@ def renderAlts : List (List Specs.Term) → List Tok
 /-- one spec item; `cudaOnly` = inside `cuda(...)` (only `mem`). -/
 def parseItem (cudaOnly : Bool) : List Tok → Option (SpecItem × List Tok)
   | .kwMem :: .eq :: .memlit n s :: r => some (.mem n s, r)
+  | .kwMem :: .eq :: .num n :: r => some (.mem n .none, r)
   | .kwCores :: .eq :: .num n :: r => if cudaOnly then none else some (.cores n, r)
   | _ => none
 
